@@ -10,5 +10,7 @@ MCNext ==
   \/ (\E db \in Db, s \in 1..MaxShards, rf \in 1..MaxRf : PutDatabase(db, s, rf)) /\ Env
   \/ (\E db \in Db : DropDatabase(db)) /\ Env
   \/ (\E st \in 0..(Cardinality(Node) - 1), sh \in 0..(Cardinality(Node) - 1) : Process(st, sh)) /\ UNCHANGED nenv
+  \* a transient repository fault while a database-config event is handled (counted like an environment step)
+  \/ (\E f \in {"read", "put1", "put2"} : ProcessF(0, 0, f)) /\ Env
 MCSpec == MCInit /\ [][MCNext]_mcvars
 =============================================================================
